@@ -254,6 +254,10 @@ def op_has_argument(opcode: int, opc) -> bool:
     """
     Return True if `opcode` instruction has an operand.
     """
+    if opc.version_tuple >= (3, 13):
+        # Since 3.13 taking an operand is no longer a threshold test:
+        # WITH_EXCEPT_START (== HAVE_ARGUMENT) takes none.
+        return opcode in opc.hasarg
     return opcode >= opc.HAVE_ARGUMENT
 
 
